@@ -2067,3 +2067,12 @@ mod tests {
         assert_eq!(queue.revisions[1].load(), Revision::start());
     }
 }
+
+/// Verification hook: Kani proof harnesses for this module's private items (text lives outside
+/// this repository, in `$SALSA_VERIF_HARNESS_DIR`).
+#[cfg(kani)]
+#[allow(dead_code, unused_imports)]
+pub(crate) mod verif {
+    use super::*;
+    include!(concat!(env!("SALSA_VERIF_HARNESS_DIR"), "/interned.rs"));
+}
